@@ -5,7 +5,7 @@ import random
 import numpy as np
 
 from .. import common
-from ..common import Suite, Finding, vhex, Reader, lean_batch
+from ..common import Suite, Finding, fhex, vhex, Reader, lean_batch
 from ..probes import ScriptedRNG, quiet
 from .. import distgen
 
@@ -193,15 +193,40 @@ def run(tier, seed):
             sh.disagree(stim, mc, const, "normalization_constant differs from the model after this history")
 
     # ---- many dimensions: the constant must not under- or overflow ---------------------------------
-    sd = Suite("C14.dimensions", "Normal (scalar, per-dimension, full diagonal-matrix covariance) and Laplace with 50-600 dimensions and variances far from 1 "
+    sd = Suite("C14.dimensions", "Normal (scalar, per-dimension, full diagonal-matrix covariance), Laplace and log-normal (TransformToLogSpace) with 50-600 dimensions and variances / parameters far from 1 "
                "(the determinant itself under- or overflows, its logarithm does not): misfit after normalize() vs scipy and vs the model; 1e-9 relative; non-trivial = all")
     reqs, metas = [], []
     for _ in range(60 if thorough else 16):
         d = rnd.choice([50, 120, 300, 400, 600])
         scale = rnd.choice([0.01, 0.03, 0.2, 5.0, 30.0, 200.0])
-        enc = rnd.choice(["normalscalar", "normaldiag", "normalfull", "laplace"])
+        enc = rnd.choice(["normalscalar", "normaldiag", "normalfull", "laplace", "logt"])
         mu = np.array([[rnd.uniform(-1, 1)] for _ in range(d)])
         x = mu + np.array([[rnd.gauss(0, 1) * math.sqrt(scale)] for _ in range(d)])
+        if enc == "logt":
+            # a log-normal in many dimensions, evaluated where the parameters are far from 1: the Jacobian's determinant
+            # under- or overflows, its logarithm (sum of the logarithms of its diagonal) does not
+            base = rnd.choice([10.0, math.e, 2.0])
+            centre = rnd.choice([2.5, -6.0, 8.0, 0.0])
+            mu = np.array([[centre + rnd.uniform(-0.3, 0.3)] for _ in range(d)])
+            var = np.array([[rnd.uniform(0.5, 1.5)] for _ in range(d)])
+            y = mu + np.array([[rnd.gauss(0, 1) * math.sqrt(v)] for v in var.ravel()])
+            x = base ** y
+            inner = D.Normal(mu.copy(), var.copy())
+            inner.normalize()
+            obj = D.TransformToLogSpace(inner, base=base)
+            with np.errstate(all="ignore"):
+                m = float(obj.misfit(x.copy()))
+            ref = -float(np.sum(stats.norm.logpdf(y.ravel(), loc=mu.ravel(), scale=np.sqrt(var.ravel())))) + float(np.sum(np.log(x.ravel() * math.log(base))))
+            stim = {"encoding": enc, "dimensions": d, "base": base, "centre": centre, "seed_case": len(metas)}
+            sd.case(stim, nontrivial=True, sample=dict(stim, misfit=m, neg_log_density=ref) if len(sd.samples) < 3 else None)
+            sd.count(f"encoding={enc}")
+            if not common.close(m, ref, 1e-9, 1e-9):
+                findings.append(Finding("C14", f"TransformToLogSpace(Normal) with {d} dimensions around {base}^{centre}: misfit {m!r}, -log of the log-normal density = {ref!r}",
+                                        {"kind": "density", "class": enc, "many_dimensions": True},
+                                        {"oracle": "scipy", "stimulus": dict(stim, mu=mu.ravel().tolist(), var=var.ravel().tolist(), x=x.ravel().tolist()), "misfit": m, "neg_log_density": ref}))
+            reqs.append(f"c05.eval logt {fhex(base)} normaldiag {vhex(mu)} {vhex(var)} 1 - - - - {vhex(x)}")
+            metas.append((stim, m))
+            continue
         if enc == "laplace":
             b = np.array([[scale * rnd.uniform(0.5, 2.0)] for _ in range(d)])
             obj = D.Laplace(mu.copy(), b.copy())
@@ -236,7 +261,57 @@ def run(tier, seed):
         if not common.close(mm, m, 1e-9, 1e-9):
             sd.disagree(stim, mm, m, "normalised misfit in many dimensions differs from the model")
 
-    suites = [st, sh, sx, sd, sg]
+    # ---- which component a Mixture draws from ------------------------------------------------------
+    sw = Suite("C14.mixture_draws", "Mixture.generate() with well separated components (means 1000 apart), weights incl. zeros and tiny values on non-final components, "
+               "large batches and many batches of 1-3 draws (where some component gets no draw): the fraction of columns next to component i vs its weight "
+               "(binomial |z| < 6; exactly 0 for weight 0), shape (dimensions, repeat); non-trivial = a non-final component with weight 0 or batches of <= 3")
+    grng = np.random.default_rng(seed * 31 + 14)
+    for ci in range(40 if thorough else 12):
+        d = rnd.choice([1, 2])
+        k = rnd.choice([2, 3, 4])
+        w = np.array([rnd.uniform(0.2, 1.0) for _ in range(k)])
+        special = rnd.choice(["zero", "zero", "tiny", "none"])
+        if special == "zero":
+            w[rnd.randrange(k - 1)] = 0.0
+        elif special == "tiny":
+            w[rnd.randrange(k - 1)] = 1e-9
+        w = w / w.sum()
+        comps = [D.Normal(np.full((d, 1), 1000.0 * i), 1.0) for i in range(k)]
+        with quiet():
+            mix = D.Mixture(comps, list(w))
+        small = rnd.random() < 0.5
+        rep, batches = (rnd.choice([1, 2, 3]), 400) if small else (4000, 1)
+        counts = np.zeros(k)
+        bad_shape = None
+        with np.errstate(all="ignore"):
+            for _ in range(batches):
+                X = np.array(mix.generate(rep, rng=grng), dtype=float)
+                if X.shape != (d, rep):
+                    bad_shape = X.shape
+                    break
+                idx = np.clip(np.rint(X[0, :] / 1000.0), 0, k - 1).astype(int)
+                counts += np.bincount(idx, minlength=k)
+        n = counts.sum()
+        stim = {"weights": w.tolist(), "dimensions": d, "repeat": rep, "batches": batches}
+        sw.case(stim, nontrivial=(special == "zero" or small), sample=dict(stim, fractions=(counts / max(n, 1)).tolist()) if len(sw.samples) < 3 else None)
+        sw.count(f"weights: {special}")
+        sw.count("batches of <= 3" if small else "one large batch")
+        problem = None
+        if bad_shape is not None:
+            problem = f"generate({rep}) returned shape {bad_shape}, expected {(d, rep)}"
+        else:
+            for i in range(k):
+                if w[i] == 0.0 and counts[i] > 0:
+                    problem = f"{int(counts[i])} of {int(n)} columns were drawn from component {i}, whose weight is 0"
+                    break
+                sd_ = math.sqrt(max(n * w[i] * (1 - w[i]), 1e-12))
+                if w[i] > 0 and abs(counts[i] - n * w[i]) > 6 * sd_ + 1:
+                    problem = f"component {i} (weight {w[i]:.4g}) produced {int(counts[i])} of {int(n)} columns, expected about {n * w[i]:.1f}"
+                    break
+        if problem:
+            findings.append(Finding("C14", "Mixture.generate: " + problem, {"kind": "mixture-draws"}, {"oracle": "component frequencies", "stimulus": stim, "counts": counts.tolist()}))
+
+    suites = [st, sh, sx, sd, sw, sg]
     # ---- thorough: large batches vs closed-form moments (supporting) -----------------------------
     if thorough:
         sm = Suite("C14.moments", "large i.i.d. batches of generate() vs closed-form first/second moments (|z| < 6): supporting evidence for 'columns are distributed "
